@@ -142,7 +142,16 @@ def build_methods(specs: List[Dict[str, Any]], shared: Dict[str, Any]):
             exec(compile(method_source(m, False), '<vmon_spec_programs>', 'exec', dont_inherit=True), ns)
             fn = ns[m['fname']]
             view_cls = None
+            if m.get('partial'):
+                # several methods that are functools.partial objects over ONE function: every partial is a method of its own
+                import functools
+                import json as _json
+                key = 'partial_base:' + _json.dumps([m['params'], m.get('ret'), m.get('doc'), m.get('ctx')], sort_keys=True, default=str)
+                fn = functools.partial(shared.setdefault(key, fn))
         funcs[m['name']] = fn
+        if m.get('pd_config'):
+            shared.setdefault('pydantic_config', {'json_schema_extra': {'x-origin': 'Zq7extra'}, 'title': None} if m['pd_config'] == 'extra+title'
+                              else {'json_schema_extra': {'x-origin': 'Zq7extra'}})
         if m.get('pep702'):
             # what @warnings.deprecated / @typing_extensions.deprecated leave on the function: the MESSAGE, not a flag
             getattr(fn, '__func__', fn).__deprecated__ = 'use something else instead'
@@ -171,7 +180,10 @@ def apply_annotations(fn, ann: Dict[str, Any], shared: Dict[str, Any], m: Dict[s
                                                                              for i, t in enumerate(ann['tags'])])
             shared.setdefault('user_lists', []).append(kw['tags'])
         if ann.get('examples'):
-            ex = [openapi.MethodExample(params={n: 1 for n in names}, result=5, summary=f'ex{i}', description='an example')
+            # OpenAPI generation normalises python tuples / sets among user values into JSON arrays (drop_unset), so the
+            # second example carries one of each: the document must stay JSON-encodable
+            ex = [openapi.MethodExample(params={n: ((1, 2) if i else 1) for n in names}, result=({5} if i else 5), summary=f'ex{i}',
+                                        description='an example')
                   for i in range(ann['examples'])]
             kw['examples'] = ex
             shared.setdefault('user_lists', []).append(ex)
@@ -182,7 +194,7 @@ def apply_annotations(fn, ann: Dict[str, Any], shared: Dict[str, Any], m: Dict[s
             kw['servers'] = [openapi.Server(url='https://example.org/api', description='srv')]
             shared.setdefault('user_lists', []).append(kw['servers'])
         if ann.get('security'):
-            kw['security'] = [{'basicAuth': []}]
+            kw['security'] = [{'basicAuth': ()}]
         if ann.get('params_schema'):
             kw['params_schema'] = {n: {'type': 'integer', 'title': n.capitalize()} for n in names}
             shared.setdefault('user_lists', []).append(kw['params_schema'])
@@ -220,8 +232,15 @@ def apply_annotations(fn, ann: Dict[str, Any], shared: Dict[str, Any], m: Dict[s
         openrpc.annotate(**kw)(fn)
 
 
-def make_extractors(stack: str, exclude_name: Optional[str] = None):
+def make_extractors(stack: str, exclude_name: Optional[str] = None, pd_config: Optional[Dict[str, Any]] = None):
     ex = (lambda name, ann, default: name == exclude_name) if exclude_name else None
+    if pd_config:
+        # pydantic model configuration handed through the extractor (`**config_args`): the user's objects
+        x_pd_cls = x_pd.PydanticSchemaExtractor
+        return {'pydantic': [x_pd_cls(exclude_param=ex, **pd_config)],
+                'pydantic+docstring': [x_pd_cls(exclude_param=ex, **pd_config), x_doc.DocstringSchemaExtractor(exclude_param=ex)],
+                'docstring+pydantic': [x_doc.DocstringSchemaExtractor(exclude_param=ex), x_pd_cls(exclude_param=ex, **pd_config)],
+                'default': [extractors.BaseSchemaExtractor()], 'docstring': [x_doc.DocstringSchemaExtractor(exclude_param=ex)]}[stack]
     table = {
         'default': [extractors.BaseSchemaExtractor()],
         'pydantic': [x_pd.PydanticSchemaExtractor(exclude_param=ex)],
@@ -234,7 +253,7 @@ def make_extractors(stack: str, exclude_name: Optional[str] = None):
 
 def make_spec(kind: str, stack: str, shared: Dict[str, Any], status_map: bool = False, exclude_name: Optional[str] = None):
     """kind: 'oas31' | 'oas30' | 'openrpc'"""
-    exs = make_extractors(stack, exclude_name)
+    exs = make_extractors(stack, exclude_name, shared.get('pydantic_config'))
     if kind == 'openrpc':
         info = openrpc.Info(title='t', version='1.0', description='d')
         shared['info'] = info
